@@ -55,6 +55,12 @@ fn unhex(s: &str) -> Vec<u8> {
         .collect()
 }
 
+/// one token, one line
+fn clean(s: &str) -> String {
+    let first = s.lines().next().unwrap_or("");
+    first.chars().take(200).map(|c| if c.is_whitespace() { '_' } else { c }).collect()
+}
+
 /// The error classes the model distinguishes.
 fn err_class(e: &Error) -> u32 {
     match e.code() {
@@ -373,9 +379,10 @@ fn run_line(line: &str, out: &mut String) {
             let (fmt_s, mode_s, arg_s) = (fmt.to_string(), mode.to_string(), arg.to_string());
             let r = catch(move || formats::run_t(&fmt_s, &mode_s, &arg_s));
             match r {
-                Ok(Ok(d)) => writeln!(out, "T {} {} {} ok {}", id, fmt, mode, d.replace(' ', "_")).unwrap(),
-                Ok(Err(e)) => writeln!(out, "T {} {} {} FAIL {}", id, fmt, mode, e.replace(' ', "_")).unwrap(),
-                Err(p) => writeln!(out, "T {} {} {} PANIC {}", id, fmt, mode, p.replace(' ', "_")).unwrap(),
+                Ok(Ok(d)) => writeln!(out, "T {} {} {} ok {}", id, fmt, mode, clean(&d)).unwrap(),
+                Ok(Err(e)) if e.starts_with("SKIP:") => writeln!(out, "T {} {} {} ok {}", id, fmt, mode, clean(&e)).unwrap(),
+                Ok(Err(e)) => writeln!(out, "T {} {} {} FAIL {}", id, fmt, mode, clean(&e)).unwrap(),
+                Err(p) => writeln!(out, "T {} {} {} PANIC {}", id, fmt, mode, clean(&p)).unwrap(),
             }
         }
         _ => {}
